@@ -45,6 +45,7 @@ type Config struct {
 	ExtraOverlay  map[string]string
 	NoMerge       bool
 	NoDivElim     bool
+	OnlyPrefix    string
 }
 
 type HarnessResult struct {
@@ -107,6 +108,7 @@ func main() {
 	flag.StringVar(&cfg.SmtLog, "smtlog", "", "write the SMT transcript of worker 0 here")
 	flag.BoolVar(&cfg.NoMerge, "nomerge", false, "disable region merging (fork on every symbolic branch)")
 	flag.BoolVar(&cfg.NoDivElim, "nodivelim", false, "keep wide divisions by constants as dividers")
+	flag.StringVar(&cfg.OnlyPrefix, "prefix", "", "debug: run only this decision prefix (comma separated)")
 	flag.StringVar(&overlay, "overlay", "", "extra overlay real=virtual,... (mutants)")
 	flag.Parse()
 	cfg.Harnesses = strings.Split(harn, ",")
@@ -292,9 +294,13 @@ type sched struct {
 	active  int
 	stopped bool
 	paths   int
+	noFork  bool
 }
 
 func (s *sched) push(p []int) {
+	if s.noFork && s.paths > 0 {
+		return
+	}
 	s.mu.Lock()
 	s.queue = append(s.queue, p)
 	s.paths++
@@ -345,7 +351,17 @@ func runHarness(sh *Shared, fn *ssa.Function) *HarnessResult {
 	t0 := time.Now()
 	sc := &sched{}
 	sc.cond = sync.NewCond(&sc.mu)
-	sc.push(nil)
+	if cfg.OnlyPrefix != "" {
+		var p []int
+		for _, x := range strings.Split(cfg.OnlyPrefix, ",") {
+			n, _ := strconv.Atoi(x)
+			p = append(p, n)
+		}
+		sc.push(p)
+		sc.noFork = true
+	} else {
+		sc.push(nil)
+	}
 	var mu sync.Mutex
 	covers := map[string]bool{}
 	funcs := map[string]bool{}
@@ -516,9 +532,11 @@ func (in *Interp) runPath(fn *ssa.Function, prefix []int) (kind, msg string, vio
 	in.sol.Push()
 	defer func() {
 		r := recover()
-		if !in.sol.dead {
-			in.sol.PopTo(0)
-		}
+		defer func() {
+			if !in.sol.dead {
+				in.sol.PopTo(0)
+			}
+		}()
 		if r == nil {
 			return
 		}
@@ -534,12 +552,28 @@ func (in *Interp) runPath(fn *ssa.Function, prefix []int) (kind, msg string, vio
 			}
 			// an uncaught panic of the code under test on a feasible path
 			m, sr := in.modelWithRecover()
+			if sr == "unknown" {
+				if pr, _ := Portfolio(in.pc, in.cfg.TimeoutMs); pr == "unsat" {
+					sr = "unsat"
+				}
+			}
+			if sr == "unsat" {
+				kind, msg = "assume", "panicking path is infeasible"
+				return
+			}
 			if sr != "sat" {
 				kind, msg = "inconclusive", "solver "+sr+" while building the model of a panicking path: "+r.msg
 				return
 			}
 			v := &Violation{Harness: in.harness, Tag: "panic", Msg: r.msg, Trace: append([]int(nil), in.trace...), Model: m}
 			v.Replay = in.mkReplay(m)
+			for _, p := range in.pc {
+				n := 200
+				v.PC = append(v.PC, Pretty(p, &n))
+			}
+			if d := os.Getenv("GSE_DUMPPANIC"); d != "" {
+				os.WriteFile(d, []byte(Script(in.pc)), 0644)
+			}
 			kind, viol = "violation", v
 		default:
 			kind, msg = "engine-error", fmt.Sprintf("%v\n%s", r, trimStack(debug.Stack()))
